@@ -76,6 +76,34 @@ PrunedScoreLess(d, a, b) ==      \* a, b = <<last step, value>>
 BelowPruned(d, ps, nb) == {i \in 1..Len(ps) : Cardinality({j \in 1..Len(ps) : PrunedScoreLess(d, ps[j], ps[i])}) < nb}
 NegPruned(ps) == [i \in 1..Len(ps) |-> <<ps[i][1], Neg(ps[i][2])>>]
 
+\* ------------------------------------------------------------------ Wilcoxon pruner
+\* pruners/_wilcoxon.py:150-226.  cur / best = the values the current trial and the best trial reported at the steps
+\* they share (same order).  The signed-rank statistic is integer arithmetic: twice the mid-rank of |d_i| is
+\* 2 * #{|d_j| < |d_i|} + #{|d_j| = |d_i|} + 1; with zero_method = "zsplit" a zero difference gives half of its rank
+\* to either side, so FOUR times W+ / W- are integers.  The p-value of the one-sided test is abstracted to what
+\* matters for the symmetry: for alternative "less" it is a nondecreasing function of W+, for "greater" of W-
+\* (the null distribution is symmetric), so "p < p_threshold" is "statistic <= c4" for a critical value c4.
+Abs(x)      == IF x < 0 THEN 0 - x ELSE x
+DiffSeq(cur, best) == [i \in 1..Len(cur) |-> cur[i] - best[i]]
+R2(d, i)    == 2 * Cardinality({j \in 1..Len(d) : Abs(d[j]) < Abs(d[i])}) + Cardinality({j \in 1..Len(d) : Abs(d[j]) = Abs(d[i])}) + 1
+RECURSIVE SumOver(_, _)
+SumOver(f, S) == IF S = {} THEN 0 ELSE LET i == CHOOSE x \in S : TRUE IN f[i] + SumOver(f, S \ {i})
+WPlus4(d)   == SumOver([i \in 1..Len(d) |-> IF d[i] > 0 THEN 2 * R2(d, i) ELSE IF d[i] = 0 THEN R2(d, i) ELSE 0], 1..Len(d))
+WMinus4(d)  == SumOver([i \in 1..Len(d) |-> IF d[i] < 0 THEN 2 * R2(d, i) ELSE IF d[i] = 0 THEN R2(d, i) ELSE 0], 1..Len(d))
+SeqSum(s)   == SumOver(s, 1..Len(s))
+\* "average is best" safety: the mean of ALL values the best trial reported against the mean of the current trial's
+\* (cross-multiplied, so exact); bestAll may be longer than the shared steps.
+\* the decision on the integer features (n shared steps, 4W+, 4W-, sums and lengths for the two means)
+WilcoxonDecide(dir, n, wp4, wm4, sumCur, lenCur, sumBestAll, lenBestAll, c4, nstartup) ==
+  LET enough == n >= (IF nstartup > 2 THEN nstartup ELSE 2)
+      worse  == IF dir = Max THEN wp4 <= c4 ELSE wm4 <= c4
+      avgIsBest == IF dir = Max THEN sumBestAll * lenCur <= sumCur * lenBestAll
+                                ELSE sumBestAll * lenCur >= sumCur * lenBestAll
+  IN  enough /\ worse /\ ~avgIsBest
+WilcoxonPrune(dir, cur, best, bestAll, c4, nstartup) ==
+  LET d == DiffSeq(cur, best) IN
+    WilcoxonDecide(dir, Len(d), WPlus4(d), WMinus4(d), SeqSum(cur), Len(cur), SeqSum(bestAll), Len(bestAll), c4, nstartup)
+
 \* ------------------------------------------------------------------ multi objective: flip a subset of objectives
 \* h: history as in Best (records with s, v, hc, c); F: set of objective indices whose direction is flipped.
 FlipOn(dirs, F)  == [k \in 1..Len(dirs) |-> IF k \in F THEN Neg(dirs[k]) ELSE dirs[k]]
